@@ -787,7 +787,7 @@ fn run_server_as<V: SvcVariant>(world: &World, suspends: bool, reals: Vec<RealCl
     let finished = Rc::new(RefCell::new(false));
     {
         let service = SimService::<V>::new(world.clone(), log.clone(), suspends, None);
-        let server = Server::new(SimListener { world: world.clone() }, service);
+        let server = Server::new(SimListener::new(world.clone()), service);
         let mut ex = Exec::new();
         let fin = finished.clone();
         let world2 = world.clone();
